@@ -612,6 +612,14 @@ class _BetaArgs(ast.NodeTransformer):
     def visit_Expr(self, n):
         n = self.generic_visit(n)
         c = n.value
+        # setattr(obj, 'name', v)  is  obj.name = v
+        if isinstance(c, ast.Call) and isinstance(c.func, ast.Name) and c.func.id == 'setattr' and len(c.args) == 3 and \
+                not c.keywords and isinstance(c.args[1], ast.Constant) and isinstance(c.args[1].value, str) and \
+                c.args[1].value.isidentifier():
+            new = ast.Assign(targets=[ast.Attribute(value=c.args[0], attr=c.args[1].value, ctx=ast.Store())], value=c.args[2])
+            ast.copy_location(new, n)
+            ast.fix_missing_locations(new)
+            return new
         # d.update((k, v) for .. in ..)  is  for .. in ..: d[k] = v
         if isinstance(c, ast.Call) and isinstance(c.func, ast.Attribute) and c.func.attr == 'update' and \
                 isinstance(c.func.value, ast.Name) and len(c.args) == 1 and not c.keywords and \
@@ -651,6 +659,20 @@ class _BetaArgs(ast.NodeTransformer):
     def visit_Call(self, n):
         n = self.generic_visit(n)
         f = n.func
+        # all(P(x) for x in (a, b, c))  is  P(a) and P(b) and P(c)   (any: or) -- same short-circuit order
+        if isinstance(f, ast.Name) and f.id in ('all', 'any') and len(n.args) == 1 and not n.keywords and \
+                isinstance(n.args[0], (ast.GeneratorExp, ast.ListComp)) and len(n.args[0].generators) == 1:
+            g = n.args[0].generators[0]
+            if isinstance(g.iter, (ast.Tuple, ast.List)) and 0 < len(g.iter.elts) <= 24 and not g.ifs and \
+                    isinstance(g.target, ast.Name) and not any(isinstance(e, ast.Starred) for e in g.iter.elts):
+                vals = [_Rename({}, {g.target.id: e}).visit(copy.deepcopy(n.args[0].elt)) for e in g.iter.elts]
+                if len(vals) == 1:
+                    return ast.copy_location(ast.Call(func=ast.Name(id='bool', ctx=ast.Load()), args=vals, keywords=[]), n)
+                return ast.copy_location(ast.BoolOp(op=ast.And() if f.id == 'all' else ast.Or(), values=vals), n)
+        # getattr(obj, 'name')  is  obj.name
+        if isinstance(f, ast.Name) and f.id == 'getattr' and len(n.args) == 2 and not n.keywords and \
+                isinstance(n.args[1], ast.Constant) and isinstance(n.args[1].value, str) and n.args[1].value.isidentifier():
+            return ast.copy_location(ast.Attribute(value=n.args[0], attr=n.args[1].value, ctx=ast.Load()), n)
         if isinstance(f, ast.Lambda) and not n.keywords and not f.args.kwarg and not f.args.kwonlyargs and \
                 not any(isinstance(a, ast.Starred) for a in n.args):
             used = {x.id for x in ast.walk(f.body) if isinstance(x, ast.Name)}
@@ -1309,10 +1331,11 @@ def normalise_module(tree: ast.Module, modname: str) -> Dict[str, List[str]]:
     # have: a constant moved out of a function; read where it is used
     new_consts: Dict[str, ast.AST] = {}
     for st in tree.body:
-        if isinstance(st, ast.Assign) and len(st.targets) == 1 and isinstance(st.targets[0], ast.Name) and \
-                isinstance(st.value, (ast.Dict, ast.Tuple, ast.List, ast.Set)) and counts.get(st.targets[0].id) == 1 and \
-                st.targets[0].id not in known_tops:
-            new_consts[st.targets[0].id] = st.value
+        tgt = st.targets[0] if isinstance(st, ast.Assign) and len(st.targets) == 1 else \
+            st.target if isinstance(st, ast.AnnAssign) else None
+        if isinstance(tgt, ast.Name) and isinstance(getattr(st, 'value', None), (ast.Dict, ast.Tuple, ast.List, ast.Set)) \
+                and counts.get(tgt.id) == 1 and tgt.id not in known_tops:
+            new_consts[tgt.id] = st.value
     for _pass in range(4):
         any_change = False
         for q in sorted(changed):
